@@ -189,7 +189,7 @@ impl HijriDate {
         let mut year: i32;
         if greg_date < Self::HIJRI_EPOCH {
             year = 0;
-            while greg_date <= Self::hijri_abs_date(1, 1, year) {
+            while greg_date < Self::hijri_abs_date(1, 1, year) {
                 year -= 1;
             }
         } else {
@@ -223,7 +223,7 @@ impl HijriDate {
 
     // Calculates and returns true if the year is a Hijri leap year, false otherwise.
     fn is_hijri_leap_year(year: i32) -> bool {
-        ((11 * year).abs() + 14) % 30 < 11
+        (11 * year + 14).rem_euclid(30) < 11
     }
 
     // Adjusts the Hijri year value for pre-epoch and returns the adjusted year and whether it is pre-epoch.
